@@ -361,10 +361,12 @@ theorem WSP.of_pb {s : St} (h : WS s) (hp : PBehind s) : WSP s :=
   fun i hi => h i (hp.sub i hi)
 
 /-- With every file present a weakly sound record is sound. -/
-theorem WSP.sound_of_files {s : St} (h : WSP s) (hb : BadWF s) (hfe : FilesExist s) :
+theorem WSP.sound_of_files {s : St} (h : WSP s) (hb : BadWF s) (hfe : FilesExist s)
+    (hpad : ∀ i, bitOf s.persisted i = true → s.cfg.padOK i = true) :
     ∀ i, bitOf s.persisted i = true → s.diskOKi i = true := by
   intro i hi
   rw [diskOKi_eq_true]
+  refine ⟨?_, hpad i hi⟩
   intro x hx hxi
   have hmiss := h i hi x hx hxi
   obtain ⟨sc, hsc, hfile, hdata⟩ := hb x hx
